@@ -84,6 +84,14 @@ async def history(acc, clock, rnd, cid):
     peer = E.Peer("PEER", "ME")
     connected = False
 
+    def unrepresentable():
+        dupframe = fixwire.msg("D", 7, "PEER", "ME", [(11, "relay"), (20002, "2"), (20003, "a"), (20004, "b"), (20003, "c"), (20004, "d")])
+        dm, _, _ = ep._codec.decode(dupframe)
+        for t_ in ("8", "9", "35", "10", "52", "49", "56", "34"):
+            if t_ in dm:
+                del dm[t_]
+        return dm
+
     def snapshot():
         return (len(ep.vf_tap) if hasattr(ep, "vf_tap") else 0, ep._session.next_num_out, j.create_or_load("PEER", "ME").next_num_out,
                 j.recover_messages(ep._session, D.OUTBOUND, 0, sys.maxsize))
@@ -145,7 +153,7 @@ async def history(acc, clock, rnd, cid):
         for step in range(nsteps):
             st = ep.connection_state
             acts = ["send_app", "send_app", "send_app_stale34", "send_app_dupflag_n", "send_hb", "send_tr", "send_test_req", "send_rr", "send_logon", "send_logout",
-                    "send_seqreset", "send_seqreset_renumber"]
+                    "send_seqreset", "send_seqreset_renumber", "send_unrepresentable"]
             if not connected:
                 acts += ["attach"] * 6
             else:
@@ -193,6 +201,9 @@ async def history(acc, clock, rnd, cid):
                      # counter as the library's API provides
                      "send_seqreset": lambda: FIXMessage("4", {34: exp_next, 36: exp_next + 3}),
                      "send_seqreset_renumber": lambda: FIXMessage("4", {34: exp_next, 36: exp_next + 3}),
+                     # a decoded message relayed to this session that carries the decoder's repeated-tag marker: the encoder refuses it
+                     # (C02); the refusal must not cost a number, or the next accepted message is not "one greater than the previous"
+                     "send_unrepresentable": lambda: unrepresentable(),
                      "send_test_req": None}[a]
                 try:
                     if a == "send_test_req":
@@ -224,6 +235,17 @@ async def history(acc, clock, rnd, cid):
                         return trace, refused, accepted
                     continue
                 except Exception as e:
+                    if a == "send_unrepresentable":
+                        refused += 1
+                        trace[-1] += f":refused-by-encoder:{type(e).__name__}"
+                        acc.oracle("refused-send-unchanged")
+                        after = snapshot()
+                        if after != before:
+                            V("encoder-refusal-consumes-a-number" if after[1] != before[1] or after[2] != before[2] else "encoder-refusal-has-effects",
+                              f"{a} refused with {type(e).__name__} in {st.name}: live counter {before[1]}->{after[1]}, stored {before[2]}->{after[2]}, "
+                              f"bytes written: {after[0] != before[0]}, journal rows changed: {after[3] != before[3]}")
+                            return trace, refused, accepted
+                        continue
                     V(f"send-raised:{type(e).__name__}", f"{a} in {st.name}: {e!r}")
                     return trace, refused, accepted
             elif a == "in_logon":
